@@ -44,7 +44,9 @@
 (* module_destructor) is part of the case chosen in Init: Profiles =       *)
 (* "full" (every module has both), "all" (every profile), "good" (every    *)
 (* profile for GOOD cases, "full" for the others; Python draws profiles    *)
-(* for a sample of those and hands them back through a case file).         *)
+(* for a sample of those and hands them back through a case file),         *)
+(* "goodpaired" (as "good", but only the profiles <<S, S>> and             *)
+(* <<S, complement of S>> for every set S of modules).                     *)
 (*                                                                         *)
 (* B is deterministic: one behaviour per initial state; the initial states *)
 (* are the cases.  Source = "enum": all cases with n <= MaxN modules that  *)
@@ -62,7 +64,7 @@ CONSTANTS
     DepOrders,   \* enum: "asc" (declarations in name order) | "all" (every call order)
     WithMissing, \* enum: also cases with one dependency-free module whose .so does not exist
     WithAnti,    \* enum: also module_antidepends() edges (outside the contract; exploration only)
-    Profiles,    \* enum: "full" | "all" | "good"  (hook profiles, see above)
+    Profiles,    \* enum: "full" | "all" | "good" | "goodpaired"  (hook profiles, see above)
     Bug          \* "none" | "D12" (module_dfs before commit 47cba46)
                  \* | "NoPostNoMark" | "NoDtorNoUnlink" (regressions on the paths for absent hooks)
 
@@ -135,11 +137,17 @@ MissingChoices(n, d, a) ==
     {{}} \cup (IF WithMissing THEN {{m} : m \in {y \in 1..n : d[y] = <<>> /\ a[y] = <<>>}} ELSE {})
 \* hook profiles <<nopost, nodtor>> of the enumeration; a module without a shared object has no profile
 ProfileChoices(c) ==
-    LET L   == SUBSET ((1..c.n) \ c.missing)
+    LET Have == (1..c.n) \ c.missing
+        L    == SUBSET Have
         AnyP == L \X L
+        \* every set of modules without post-init, each once with the same and once with the
+        \* complementary set of modules without destructor (so every module also has each of the
+        \* four variants in every case)
+        Paired == {<<x, x>> : x \in L} \cup {<<x, Have \ x>> : x \in L}
     IN CASE Profiles = "full" -> {<<{}, {}>>}
          [] Profiles = "all"  -> AnyP
          [] Profiles = "good" -> IF Good(c) THEN AnyP ELSE {<<{}, {}>>}
+         [] Profiles = "goodpaired" -> IF Good(c) THEN Paired ELSE {<<{}, {}>>}
 
 Init ==
     IF Source = "file"
